@@ -237,10 +237,11 @@ bool Plan::EdgeFinished(Edge* edge, EdgeResult result, string* err) {
 }
 
 bool Plan::NodeFinished(Node* node, string* err) {
-  // See if we we want any edges from this node.
-  for (vector<Edge*>::const_iterator oe = node->out_edges().begin();
-       oe != node->out_edges().end(); ++oe) {
-    map<Edge*, Want>::iterator want_e = want_.find(*oe);
+  // See if we we want any edges from this node.  Finishing an edge below can
+  // load a dyndep file that names this node as a new input, which appends to
+  // the list being walked: go by index, iterators would be invalidated.
+  for (size_t i = 0; i < node->out_edges().size(); ++i) {
+    map<Edge*, Want>::iterator want_e = want_.find(node->out_edges()[i]);
     if (want_e == want_.end())
       continue;
 
